@@ -121,6 +121,23 @@ CHECKS = {
         "set-inputs/process/restart/copy/edit/toggle operations are random.",
         note="fresh engines are rebuilt from the generator's spec plus the lineage's edits; bit-exact; Function formulas over inputs only",
     ),
+    "C17": dict(
+        level="exploration",
+        technique="runtime monitors on Function.load/membership/evaluate compared with the generator's typed expression tree (own operator table and meanings; own precedence-climbing parser as fall-back) and with an independent RPN machine run on the loaded tree's postfix; ill-formed variants with one injected error",
+        text="Every observed formula evaluation is compared, element by element, with the value of the expression tree the text was printed from "
+        "under the documented operator table, and with an independent stack evaluation of the postfix of the tree the library built; "
+        "formulas cover all 13 operators and 34 functions with minimal/redundant parentheses and tight/loose spacing, scalar and array "
+        "values incl. NaN/inf; single-error ill-formed variants must be rejected at load.",
+        note="elementary functions are numpy's ufuncs in the oracle too (independence is structural); 1e-12 fall-back; min/max with NaN or signed zeros and round on a half are unspecified and skipped",
+    ),
+    "C19": dict(
+        level="exploration",
+        technique="runtime monitors on Engine.is_ready (flag + error list) and Engine.process (return/raise) with a per-engine verdict table; operator-removal lattice over generated engines with needed-operator analysis from the spec; hooks on the four raise sites",
+        text="Every process() that follows a `ready` verdict on the same configuration with finite inputs must not raise, and every missing "
+        "operator that the generator knows to be needed must appear in the error list; all subsets (sampled above a cap in the quick tier) "
+        "of {conjunction, disjunction, implication per block; aggregation, defuzzifier per output} are removed from valid engines.",
+        note="needed operators are derived from the generator's rule trees and defuzzifier kinds; all components enabled in this workload; over-reporting is not a violation",
+    ),
 }
 NOT_APPLICABLE = [
     {"property_id": p, "reason": "check not built yet in this session (work in progress; see DESIGN.md §4)"} for p in ALL if p not in CHECKS
